@@ -474,6 +474,15 @@ def _canon(res, mode):
     return res
 
 
+def _freeze(res, mode):
+    """Immutable picture of a result as the caller holds it (zero entries of a
+    chart are not part of its meaning: look-ups may materialise them)."""
+    c = _canon(res, mode)
+    if isinstance(c, dict):
+        return tuple(sorted((repr(k), repr(v)) for k, v in c.items()))
+    return repr(c)
+
+
 def _is_zero(v, mode):
     try:
         if v == 0 and not hasattr(v, "score") and not hasattr(v, "t"):
@@ -767,6 +776,7 @@ def _execute_with_model(sc, out, server, ab, kind, mode, sched, pres, tr_for):
         return out
 
     queried = []
+    retained = []
     states = set()
     last_fault_at = -1
     n_both_raise = 0
@@ -849,6 +859,8 @@ def _execute_with_model(sc, out, server, ab, kind, mode, sched, pres, tr_for):
                     st, raw = ab_.run(lambda: _do_query(kind, sut, op, tr, user_cfg))
                 got = ("ok", _canon(raw, mode)) if st == "done" else None
                 aborted = st == "aborted"
+                if st == "done":
+                    retained.append((i, op["q"], raw, _freeze(raw, mode)))
             except Exception as e:
                 got = ("exc", type(e).__name__, short(str(e), 160))
             if aborted:
@@ -858,9 +870,21 @@ def _execute_with_model(sc, out, server, ab, kind, mode, sched, pres, tr_for):
         else:
             try:
                 with libcall(f"{kind}:{op['q']}"):
-                    got = ("ok", _canon(_do_query(kind, sut, op, tr, user_cfg), mode))
+                    raw = _do_query(kind, sut, op, tr, user_cfg)
+                    got = ("ok", _canon(raw, mode))
+                retained.append((i, op["q"], raw, _freeze(raw, mode)))
             except Exception as e:
                 got = ("exc", type(e).__name__, short(str(e), 160))
+        # "earlier results stay valid": an object handed to the caller by an earlier
+        # query is never changed by a later one (the harness itself never writes to it)
+        for j, (i0, q0, raw0, fz0) in enumerate(retained[:-1] if retained and retained[-1][0] == i else retained):
+            now = _freeze(raw0, mode)
+            if now != fz0:
+                out.violation("history:earlier-result-changed", sig={"kind": kind, "q0": q0, "q": op["q"]},
+                              op_index=i, returned_at=i0, was=short(repr(fz0), 200), now=short(repr(now), 200))
+                retained[j] = (i0, q0, raw0, now)
+        if len(retained) > 1:
+            out.probe("retained_results_rechecked")
         # purity of the user's grammar (checked after every operation, aborted or not)
         snap = _snapshot(user_cfg)
         if snap != snap0:
